@@ -3,6 +3,7 @@ package main
 // SMT-LIB generation helpers: sorts for Go types, global declarations, script assembly.
 
 import (
+	"hash/fnv"
 	"fmt"
 	"go/types"
 	"regexp"
@@ -33,6 +34,7 @@ type SMTCtx struct {
 	tagOrder []string
 	fieldIds map[string]int
 	uniq     int
+	freshSeq int // fresh-name counter; reset per verified function so that a function's queries do not depend on what was verified before it
 	patSort  map[string]string // trigger term -> sort (for ground seeds of skolemized goals)
 }
 
@@ -92,8 +94,8 @@ func (c *SMTCtx) initPrelude() {
 func (c *SMTCtx) fresh(prefix string) string {
 	c.mu.Lock()
 	defer c.mu.Unlock()
-	c.uniq++
-	return fmt.Sprintf("%s!%d", prefix, c.uniq)
+	c.freshSeq++
+	return fmt.Sprintf("%s!%d", prefix, c.freshSeq)
 }
 
 func (c *SMTCtx) addDecl(name, text string) {
@@ -256,10 +258,27 @@ func (c *SMTCtx) strLit(s string) string {
 	if n, ok := c.strLits[s]; ok {
 		return n
 	}
-	n := fmt.Sprintf("strlit_%d", len(c.strLits))
+	// the name depends on the content only (not on the order of discovery): the text of a query is
+	// then the same whichever functions were verified before
+	n := fmt.Sprintf("strlit_%x", stableHash(s)&0xffffffffff)
+	for used := true; used; {
+		used = false
+		for _, o := range c.strLits {
+			if o == n {
+				used = true
+				n += "x"
+			}
+		}
+	}
 	c.strLits[s] = n
 	c.strOrder = append(c.strOrder, s)
 	return n
+}
+
+func stableHash(s string) uint64 {
+	h := fnv.New64a()
+	h.Write([]byte(s))
+	return h.Sum64()
 }
 
 // typeTag returns the dynamic type tag (>0) for a concrete type stored in an interface.
@@ -270,7 +289,16 @@ func (c *SMTCtx) typeTag(t types.Type) int {
 	if n, ok := c.typeTags[k]; ok {
 		return n
 	}
-	n := len(c.typeTags) + 1
+	n := 1 + int(stableHash(k)%9000000)
+	for used := true; used; {
+		used = false
+		for _, o := range c.typeTags {
+			if o == n {
+				used = true
+				n++
+			}
+		}
+	}
 	c.typeTags[k] = n
 	c.tagOrder = append(c.tagOrder, k)
 	return n
@@ -283,7 +311,16 @@ func (c *SMTCtx) fieldID(structName, field string) int {
 	if n, ok := c.fieldIds[k]; ok {
 		return n
 	}
-	n := len(c.fieldIds) + 1
+	n := 1 + int(stableHash(k)%9000000)
+	for used := true; used; {
+		used = false
+		for _, o := range c.fieldIds {
+			if o == n {
+				used = true
+				n++
+			}
+		}
+	}
 	c.fieldIds[k] = n
 	return n
 }
@@ -356,30 +393,98 @@ func (c *SMTCtx) assemble(body string) string {
 	// datatypes and functions in declaration order; struct datatypes must be ordered by dependency:
 	// a struct declared later may be referenced by an earlier one only through Int (pointers), and
 	// by-value nesting is declared first because structName recurses before addDecl.
+	// canonical order: repeatedly the alphabetically first needed declaration all of whose needed
+	// dependencies are already out (discovery order would make the text depend on what was verified
+	// before, and the solvers are sensitive to declaration order)
+	var pend []gdecl
 	for _, d := range c.decls {
 		if need[d.name] {
-			sb.WriteString(d.text)
-			sb.WriteString("\n")
+			pend = append(pend, d)
+		}
+	}
+	sort.Slice(pend, func(i, j int) bool { return pend[i].name < pend[j].name })
+	deps := make([][]string, len(pend))
+	isPend := map[string]bool{}
+	for _, d := range pend {
+		isPend[d.name] = true
+	}
+	for i, d := range pend {
+		seen := map[string]bool{}
+		for _, s := range symRe.FindAllString(d.text, -1) {
+			t := s
+			if strings.HasPrefix(t, "mk_S_") {
+				t = t[3:]
+			} else if j := strings.Index(t, "."); j > 0 && strings.HasPrefix(t, "S_") {
+				t = t[:j]
+			}
+			if t != d.name && isPend[t] && !seen[t] {
+				seen[t] = true
+				deps[i] = append(deps[i], t)
+			}
+		}
+	}
+	out := map[string]bool{}
+	for emitted := 0; emitted < len(pend); {
+		progress := false
+		for i, d := range pend {
+			if out[d.name] {
+				continue
+			}
+			ok := true
+			for _, dep := range deps[i] {
+				if !out[dep] {
+					ok = false
+					break
+				}
+			}
+			if ok {
+				sb.WriteString(d.text)
+				sb.WriteString("\n")
+				out[d.name] = true
+				emitted++
+				progress = true
+				break
+			}
+		}
+		if !progress {
+			// cyclic mention (should not happen): fall back to discovery order for the rest
+			for _, d := range c.decls {
+				if need[d.name] && !out[d.name] {
+					sb.WriteString(d.text)
+					sb.WriteString("\n")
+					out[d.name] = true
+					emitted++
+				}
+			}
 		}
 	}
 	// string literals
 	var lits []string
+	litLen := map[string]int{}
 	for _, s := range c.strOrder {
 		n := c.strLits[s]
 		if need[n] {
 			lits = append(lits, n)
-			fmt.Fprintf(&sb, "(declare-const %s Str)\n(assert (= (strlen %s) %d))\n", n, n, len(s))
+			litLen[n] = len(s)
 		}
 	}
 	sort.Strings(lits)
+	for _, n := range lits {
+		fmt.Fprintf(&sb, "(declare-const %s Str)\n(assert (= (strlen %s) %d))\n", n, n, litLen[n])
+	}
 	if len(lits) > 1 {
 		fmt.Fprintf(&sb, "(assert (distinct %s))\n", strings.Join(lits, " "))
 	}
+	var axs []string
 	for i, a := range c.axioms {
 		if axUsed[i] {
-			sb.WriteString(a.text)
-			sb.WriteString("\n")
+			axs = append(axs, a.text)
 		}
+	}
+	sort.Strings(axs)
+	for _, a := range axs {
+		sb.WriteString(a)
+		sb.WriteString("\n")
 	}
 	sb.WriteString("; --- path ---\n")
 	sb.WriteString(body)
